@@ -283,7 +283,7 @@ Lemma last_out_cases sh op pre c :
     (bound_ticked old c = false -> lk_lmt l1 <= last_t pre) /\
     ((cur = old /\ l2 = l1 /\ rn = false /\ o_ref o = false) \/
      (exists j, cur = Some j /\ old <> Some j /\ rebind sh t ts j l1 = (l2, rn) /\ o_ref o = true)) /\
-    o_cons o = consumers (bound_ticked old c || rn) (c_poke c) (read sh t ts l2) /\
+    o_cons o = consumers (bound_ticked old c || rn) (c_poke c) (c_force c) (read sh t ts l2) /\
     o_direct o = directs c ts /\ o_t o = t.
 Proof.
   intros Hwf old cur t o.
@@ -423,24 +423,26 @@ Proof.
 Qed.
 
 (* consumers: who is evaluated *)
-Lemma consumers_in notified poke r cid r' :
-  In (cid, r') (consumers notified poke r) ->
-  r' = r /\ ((cid = 0%nat /\ notified = true) \/ (cid = 1%nat /\ (notified = true \/ poke = true)) \/
-             (cid = 2%nat /\ poke = true) \/ (cid = 3%nat /\ notified = true /\ r_valid r = true)).
+Lemma consumers_in notified poke force r cid r' :
+  In (cid, r') (consumers notified poke force r) ->
+  r' = r /\ ((cid = 0%nat /\ (notified = true \/ force = true)) \/
+             (cid = 1%nat /\ (notified = true \/ poke = true \/ force = true)) \/
+             (cid = 2%nat /\ (poke = true \/ force = true)) \/
+             (cid = 3%nat /\ (notified = true \/ force = true) /\ r_valid r = true)).
 Proof.
   unfold consumers. intros H.
-  destruct notified, poke, (r_valid r) eqn:Ev; simpl in H;
-    repeat (destruct H as [H|H]; [injection H as <- <-; split; [reflexivity|]; auto 10|]); contradiction.
+  destruct notified, poke, force, (r_valid r) eqn:Ev; simpl in H;
+    repeat (destruct H as [H|H]; [injection H as <- <-; split; [reflexivity|]; auto 12|]); contradiction.
 Qed.
 
-Lemma consumers_notified poke r :
-  In (0%nat, r) (consumers true poke r) /\ In (1%nat, r) (consumers true poke r) /\
-  (r_valid r = true -> In (3%nat, r) (consumers true poke r)).
+Lemma consumers_notified poke force r :
+  In (0%nat, r) (consumers true poke force r) /\ In (1%nat, r) (consumers true poke force r) /\
+  (r_valid r = true -> In (3%nat, r) (consumers true poke force r)).
 Proof.
   unfold consumers. simpl. repeat split.
   - left; reflexivity.
   - right; left; reflexivity.
-  - intros ->. right; right. apply in_or_app. right. left; reflexivity.
+  - intros ->. destruct (poke || force); simpl; auto.
 Qed.
 
 Lemma option_eq_dec_nat (a b : option nat) : {a = b} + {a <> b}.
@@ -454,7 +456,7 @@ Lemma last_out_reading sh op pre c :
   exists (ts : list target) (l2 : link) (n : bool),
     (forall i, (i < 3)%nat -> get_t ts i = spec_tgt sh i (pre ++ [c])) /\
     lk_tgt l2 = spec_sel op (pre ++ [c]) /\
-    o_cons (last_out sh op pre c) = consumers n (c_poke c) (read sh (c_t c) ts l2).
+    o_cons (last_out sh op pre c) = consumers n (c_poke c) (c_force c) (read sh (c_t c) ts l2).
 Proof.
   intros Hwf. destruct (last_out_cases sh op pre c Hwf) as (ts & l1 & l2 & rn & _ & Hts & Hl1 & _ & _ & _ & Hc & Hcons & _).
   exists ts, l2, (bound_ticked (spec_sel op pre) c || rn). repeat split; auto.
@@ -524,7 +526,7 @@ Lemma retarget_valid_form sh op pre c j :
   spec_sel op (pre ++ [c]) = Some j -> spec_sel op pre <> Some j ->
   tvalid (spec_tgt sh j (pre ++ [c])) = true ->
   exists r,
-    o_cons (last_out sh op pre c) = consumers true (c_poke c) r /\
+    o_cons (last_out sh op pre c) = consumers true (c_poke c) (c_force c) r /\
     o_ref (last_out sh op pre c) = true /\
     r_valid r = true /\ r_mod r = true /\ r_lmt r = c_t c /\ r_vals r = tval (spec_tgt sh j (pre ++ [c])) /\
     (sh = ShTS -> r_upd r = tval (spec_tgt sh j (pre ++ [c])) /\ r_rem r = []) /\
@@ -549,7 +551,7 @@ Proof.
                                        | None => [] end else [])
                   ltac:(rewrite Hts; auto) Hle) as R.
     cbv zeta in R.
-    match type of Hcons with _ = consumers _ _ ?rr => set (r := rr) in * end.
+    match type of Hcons with _ = consumers _ _ _ ?rr => set (r := rr) in * end.
     destruct R as (R1 & R2 & R3 & R4 & R5 & R6).
     rewrite Hts in R4, R5, R6 by exact Hj.
     exists r. split; [exact Hcons|]. split; [exact Href|].
@@ -575,12 +577,12 @@ Proof.
     destruct (last_out_cases sh op pre c Hwf) as (ts & l1 & l2 & rn & _ & Hts & Hl1 & Htr & Ha & _ & Hc & Hcons & _).
     rewrite Hold in *. simpl in Ha, Hcons. rewrite Htk in Hcons. simpl in Hcons.
     exists (read sh (c_t c) ts l2).
-    pose proof (consumers_notified (c_poke c) (read sh (c_t c) ts l2)) as (C0 & C1 & C3).
+    pose proof (consumers_notified (c_poke c) (c_force c) (read sh (c_t c) ts l2)) as (C0 & C1 & C3).
     assert (E : read sh (c_t c) ts l2 = read_direct (spec_tgt sh j (pre ++ [c]))).
     { eapply (deref_delta_l sh op pre c j 0%nat); eauto; [congruence|]. rewrite Hcons. exact C0. }
     rewrite Hcons. rewrite E in *. simpl in *. repeat split; auto.
   - destruct (retarget_valid_form sh op pre c j Hwf Hcur Hne Hv) as (r & Hcons & _ & R1 & R2 & R3 & R4 & _).
-    exists r. pose proof (consumers_notified (c_poke c) r) as (C0 & C1 & C3).
+    exists r. pose proof (consumers_notified (c_poke c) (c_force c) r) as (C0 & C1 & C3).
     rewrite Hcons. repeat split; auto.
 Qed.
 
@@ -601,7 +603,7 @@ Lemma retarget_ticks_same_cycle_l sh op pre c j :
 Proof.
   intros Hwf Hcur Hne Hv.
   destruct (retarget_valid_form sh op pre c j Hwf Hcur Hne Hv) as (r & Hcons & Href & R1 & R2 & R3 & R4 & R5 & _).
-  exists r. pose proof (consumers_notified (c_poke c) r) as (C0 & C1 & C3).
+  exists r. pose proof (consumers_notified (c_poke c) (c_force c) r) as (C0 & C1 & C3).
   rewrite Hcons. repeat split; auto; apply R5; assumption.
 Qed.
 
@@ -620,7 +622,7 @@ Lemma keyed_retarget_exact_l sh op pre c j :
 Proof.
   intros Hwf Hk Hcur Hne Hv.
   destruct (retarget_valid_form sh op pre c j Hwf Hcur Hne Hv) as (r & Hcons & Href & R1 & R2 & R3 & R4 & R5 & R6).
-  exists r. pose proof (consumers_notified (c_poke c) r) as (C0 & _).
+  exists r. pose proof (consumers_notified (c_poke c) (c_force c) r) as (C0 & _).
   rewrite Hcons. split; [exact C0|]. split; [exact R2|].
   specialize (R6 Hk). unfold sample_delta_impl in R6. injection R6 as -> ->.
   split; [reflexivity|]. destruct sh; [discriminate|reflexivity|reflexivity].
@@ -661,9 +663,9 @@ Qed.
    sees that removal); next cycle the reference is retargeted to B = {5}: the consumer
    is told that 1 AND 2 were removed. *)
 Definition refute_pre : list cyc :=
-  [mkC 1 (Some 1) [Some [1; 2]; None; None] false;
-   mkC 2 None [Some [-1]; Some [5]; None] false].
-Definition refute_c : cyc := mkC 3 (Some 0) [None; None; None] false.
+  [mkC 1 (Some 1) [Some [1; 2]; None; None] false false;
+   mkC 2 None [Some [-1]; Some [5]; None] false false].
+Definition refute_c : cyc := mkC 3 (Some 0) [None; None; None] false false.
 
 Lemma keyed_retarget_is_diff_refuted_l :
   exists sh op pre c j,
@@ -688,7 +690,7 @@ Lemma unselected_never_reaches_l sh op pre c cid r :
   spec_sel op (pre ++ [c]) = spec_sel op pre ->
   (forall j, spec_sel op pre = Some j -> ticks c j = false) ->
   In (cid, r) (o_cons (last_out sh op pre c)) ->
-  c_poke c = true /\ (cid = 1%nat \/ cid = 2%nat) /\
+  (c_force c = true \/ (c_poke c = true /\ (cid = 1%nat \/ cid = 2%nat))) /\
   r_mod r = false /\ r_upd r = [] /\ r_rem r = [] /\
   match spec_sel op pre with
   | Some j => r_valid r = tvalid (spec_tgt sh j pre) /\
@@ -704,9 +706,9 @@ Proof.
   destruct Hc as [(_ & -> & -> & _)|(j & Hcur & Hne & _)]; [|rewrite Hsame in Hcur; contradiction].
   rewrite Hbt in Hcons. simpl in Hcons. rewrite Hcons in Hin.
   apply consumers_in in Hin. destruct Hin as [-> Hwho].
-  assert (Hp : c_poke c = true /\ (cid = 1%nat \/ cid = 2%nat)).
-  { destruct Hwho as [[_ H]|[[-> [H|H]]|[[-> H]|[_ [H _]]]]]; try discriminate; auto. }
-  destruct Hp as [Hp Hc12]. split; [exact Hp|]. split; [exact Hc12|].
+  assert (Hp : c_force c = true \/ (c_poke c = true /\ (cid = 1%nat \/ cid = 2%nat))).
+  { destruct Hwho as [[_ [H|H]]|[[-> [H|[H|H]]]|[[-> [H|H]]|[_ [[H|H] _]]]]]; try discriminate; auto. }
+  split; [exact Hp|].
   specialize (Hb Hbt).
   assert (Hq : forall j, lk_tgt l1 = Some j -> tlmt (get_t ts j) < c_t c).
   { intros j Hj. rewrite Hl1 in Hj.
@@ -742,7 +744,8 @@ Lemma same_reference_no_tick_l sh op pre c v :
   o_ref (last_out sh op pre c) = false /\
   (ticks c (sel_target op v) = false ->
    forall cid r, In (cid, r) (o_cons (last_out sh op pre c)) ->
-     c_poke c = true /\ (cid = 1%nat \/ cid = 2%nat) /\ r_mod r = false /\ r_upd r = [] /\ r_rem r = []).
+     (c_force c = true \/ (c_poke c = true /\ (cid = 1%nat \/ cid = 2%nat))) /\
+     r_mod r = false /\ r_upd r = [] /\ r_rem r = []).
 Proof.
   intros Hwf Hsel Hold.
   assert (Hsame : spec_sel op (pre ++ [c]) = spec_sel op pre).
@@ -751,13 +754,13 @@ Proof.
   - destruct (o_ref (last_out sh op pre c)) eqn:E; [|reflexivity].
     apply (ref_ticks_iff_retarget_l sh op pre c Hwf) in E. contradiction.
   - intros Hnt cid r Hin.
-    destruct (unselected_never_reaches_l sh op pre c cid r Hwf Hsame) as (H1 & H2 & H3 & H4 & H5 & _); auto.
+    destruct (unselected_never_reaches_l sh op pre c cid r Hwf Hsame) as (H1 & H2 & H3 & H4 & _); auto.
     intros j Hj. rewrite Hold in Hj. injection Hj as <-. exact Hnt.
 Qed.
 
 (* the PASSIVE consumer is never woken through the reference *)
 Lemma passive_only_poked_l sh op pre c r :
-  wf (pre ++ [c]) -> In (2%nat, r) (o_cons (last_out sh op pre c)) -> c_poke c = true.
+  wf (pre ++ [c]) -> In (2%nat, r) (o_cons (last_out sh op pre c)) -> c_poke c = true \/ c_force c = true.
 Proof.
   intros Hwf Hin.
   destruct (last_out_reading sh op pre c Hwf) as (ts & l2 & n & _ & _ & Hc).
@@ -808,10 +811,10 @@ Proof.
     apply IH. destruct (script_line l) as [[[k t] p]|]; [|exact Ha].
     destruct (wired op k && (s <=? t) && (t <? e)) eqn:E; [|exact Ha].
     apply insert_sorted; [lia|exact Ha]. }
-  apply G. simpl. exact I.
+  apply G. destruct (nested_consumers op && (s <? e)); simpl; [split; [lia|exact I]|exact I].
 Qed.
 
-Lemma wf_map_cyc op w lo ts : sorted_from lo ts -> wf_from lo (map (cyc_at op w) ts).
+Lemma wf_map_cyc op s w lo ts : sorted_from lo ts -> wf_from lo (map (cyc_at op s w) ts).
 Proof.
   revert lo; induction ts as [|t r IH]; intros lo H; simpl in *; [exact I|].
   destruct H as [H1 H2]. split; [exact H1|]. apply IH. exact H2.
